@@ -96,6 +96,8 @@ def norm_path(p):
 
 
 def _prune_cache(keep):
+    if os.environ.get("VERIF_NO_PRUNE"):
+        return
     try:
         ents = [e for e in os.listdir(CACHE) if e != keep and not e.endswith(".lock")]
     except FileNotFoundError:
